@@ -64,6 +64,15 @@ def child_run(case):
     """one case, fresh cleaner; twice"""
     lines = tg.render(case["lines"])
     res = []
+    if int(os.environ.get("PYTHONHASHSEED", "0") or 0) % 2 == 1 and len(lines) >= 2 and case["entry"] in ("list", "str"):
+        # every second child interpreter has a history: another cleaner object (same configuration) met the
+        # same content in another order before.  A *fresh* cleaner must not notice - the outputs of all
+        # children are compared with each other.
+        try:
+            c08.build_cleaner(case).clean_content(list(reversed(lines)), no_obfuscate=list(case.get("no_obfuscate") or []),
+                                                  no_redact=bool(case.get("no_redact")))
+        except Exception:  # noqa
+            pass
     for _ in range(2):
         try:
             res.append(c08.run_entry(case, c08.build_cleaner(case), lines))
@@ -91,7 +100,9 @@ def _verify_answers(case, answers):
     for k in ks[1:]:
         if answers[k]["out"] != base:
             raise Violation("cleaning the same content with the same configuration gives different output under "
-                            "PYTHONHASHSEED=%s and PYTHONHASHSEED=%s" % (ks[0], k),
+                            "PYTHONHASHSEED=%s and PYTHONHASHSEED=%s (fresh cleaner, fresh interpreter each; "
+                            "interpreters with an odd seed let another cleaner object clean the lines in reverse "
+                            "order first - see child_run)" % (ks[0], k),
                             input=tg.render(case["lines"]), out_a=base, out_b=answers[k]["out"],
                             keywords=case.get("keywords"), fqdn=case["fqdn"], hashseeds=[ks[0], k])
 
@@ -200,8 +211,8 @@ def hashseed_search(tier, seed, shard, nshards, stats):
     ks = hashseed.seeds_for(verif_seed, 8 if tier == "quick" else 64)
     total = 300 if tier == "quick" else 2000
     n = (total + nshards - 1) // nshards
-    cases = _collect(st.one_of(_compete_case(tier), _compete_case(tier), _compete_case(tier), _width_case(tier)),
-                     n, seed)
+    cases = _collect(st.one_of(_compete_case(tier), _compete_case(tier), _compete_case(tier), _width_case(tier),
+                               _peers_case(tier)), n, seed)
     if shard == 0:
         stats.extra["hashseeds"] = len(ks)
     batch_size = 60
@@ -219,7 +230,7 @@ def hashseed_search(tier, seed, shard, nshards, stats):
                 stats.evaluations += 1
                 stats.failure = (wrapped, v.msg, v.details)
                 return
-            nt = bool(case.get("width")) or order_sensitive(case)
+            nt = bool(case.get("width")) or case.get("compete") == ["peer-hosts"] or order_sensitive(case)
             stats.note(wrapped, {"nontrivial": nt, "key": _key(case),
                                  "labels": ["order-sensitive" if nt else "order-insensitive", "entry=" + case["entry"]] +
                                  ["compete:" + c for c in case.get("compete", [])]})
@@ -252,6 +263,16 @@ def check_order(case):
     if out != again:
         raise Violation("two fresh cleaners produce different output for the same content and configuration",
                         first=out, second=again, **details)
+    if entry in ("list", "str") and len(lines) >= 2:
+        # in between, another cleaner of the same process met the same names in another order: a fresh cleaner
+        # must not inherit anything from it
+        other = c08.build_cleaner(case)
+        other.clean_content(list(reversed(lines)) + list(lines[:1]), no_obfuscate=list(case.get("no_obfuscate") or []),
+                            no_redact=bool(case.get("no_redact")))
+        third = c08.run_entry(case, c08.build_cleaner(case), lines)
+        if third != out:
+            raise Violation("a fresh cleaner's output depends on what another cleaner object did earlier in the "
+                            "process", first=out, after_other_cleaner=third, **details)
     if entry == "list" and case.get("allowlist") is not None:
         # callers hand every cleaning of a spec the *same* allow-list object (it comes out of the filter
         # registry's cache): the result must not depend on how often that object was used before
@@ -521,6 +542,69 @@ def _width_case(draw, tier):
             "lines": lines, "compete": ["width-mode"]}
 
 
+def big_cases(tier):
+    """contents whose number of stored lines sits around powers of two (buffered / chunked writers)"""
+    sizes = [4095, 4096, 4097, 8193, 16383, 16384, 16385, 32769] if tier == "quick" else \
+        [1023, 1025, 4095, 4096, 4097, 8191, 8193, 16383, 16384, 16385, 32767, 32768, 32769, 65537, 131073]
+    for n in sizes:
+        for entry in ("write", "file"):
+            yield {"n": n, "entry": entry}
+
+
+def check_big(case):
+    from insights.cleaner import Cleaner
+    from insights.core.context import HostContext
+    from insights.core.spec_factory import DatasourceProvider
+    from types import SimpleNamespace
+    n = case["n"]
+    lines = ["#%d# filler text %d" % (i, i % 7) for i in range(n)]
+    cleaner = Cleaner(SimpleNamespace(obfuscate=True, obfuscate_hostname=True, obfuscate_ipv6=False, obfuscate_mac=True),
+                      {}, "web.corp.acme.org")
+    d = tempfile.mkdtemp(prefix="vp-c10-")
+    try:
+        if case["entry"] == "write":
+            p = DatasourceProvider(list(lines), relative_path="etc/vp/big.conf", root=d, ctx=HostContext(), cleaner=cleaner)
+            path = os.path.join(d, "out", "etc/vp/big.conf")
+            p.write(path)
+        else:
+            path = os.path.join(d, "big.txt")
+            with open(path, "w") as f:
+                f.write("\n".join(lines) + "\n")
+            cleaner.clean_file(path)
+        with open(path) as f:
+            stored = f.read().split("\n")
+        if stored and stored[-1] == "":
+            stored.pop()
+        if stored != lines:
+            k = next((i for i in range(min(len(stored), len(lines))) if stored[i] != lines[i]), min(len(stored), len(lines)))
+            raise Violation("%d lines that need no cleaning were stored as %d lines; first difference at line %d: %r "
+                            "(every stored line must derive from exactly one input line)"
+                            % (n, len(stored), k, stored[k][:80] if k < len(stored) else None), n=n, entry=case["entry"])
+    finally:
+        shutil.rmtree(d, ignore_errors=True)
+    return {"nontrivial": True, "labels": ["entry=" + case["entry"], "lines>=16384" if n >= 16384 else "lines<16384"]}
+
+
+@st.composite
+def _peers_case(draw, tier):
+    """several other hosts of the system's domain (and several addresses) met in a generated order on
+    several lines: the numbering of the substitutes depends on the order of discovery, so anything a fresh
+    cleaner inherits from elsewhere shows"""
+    w = draw(tg.world(max_keywords=0).filter(lambda w_: len(w_["hosts"]) >= 2))
+    lines = []
+    for i in range(draw(st.integers(2, 5))):
+        parts = []
+        for j in range(draw(st.integers(1, 3))):
+            tok = draw(tg.token(w, ["host", "host", "host", "ip", "fqdn"]))
+            parts.append(["fill", " " if parts else " "])
+            parts.append(tok)
+        parts.append(["fill", " end"])
+        lines.append({"tag": i, "tagpos": "start", "parts": parts})
+    return {"fqdn": w["fqdn"], "obf": dict(ALL_ON), "keywords": [], "patterns": None, "no_obfuscate": [],
+            "no_redact": False, "allowlist": None, "entry": draw(st.sampled_from(["list", "list", "str"])),
+            "width": False, "final_newline": True, "lines": lines, "compete": ["peer-hosts"]}
+
+
 def strat_order(tier):
     return _compete_case(tier, for_order=True)
 
@@ -548,6 +632,7 @@ def _strhash(case):
 
 
 SUBS = [
+    Sub("big", check_big, enumerate=big_cases, workers_quick=4, workers_thorough=8, budget_quick=60, budget_thorough=300),
     Sub("hashseed", check_hashseed, custom=hashseed_search, workers_quick=2, workers_thorough=16,
         budget_quick=50, budget_thorough=560),
     Sub("order", check_order, strategy=strat_order, quick=1200, thorough=12000, workers_quick=3,
